@@ -251,7 +251,7 @@ func (p *c02Prop) afterBlock(b *ibtpBlock, before, after *sim.Dump) {
 
 func c02Property(t *rapid.T) {
 	audit := rapid.Bool().Draw(t, "audit")
-	nPairs := rapid.IntRange(2, 6).Draw(t, "pairs")
+	nPairs := rapid.IntRange(2, 7).Draw(t, "pairs")
 	s := newIBTPScenario(t, "C02", audit, nPairs)
 	defer s.close()
 	s.router = s.w.N.Router()
